@@ -28,6 +28,23 @@ def file_ast(fn):
         for node in ast.walk(tree):
             for ch in ast.iter_child_nodes(node):
                 ch._parent = node
+        modname = 'crysp.' + os.path.relpath(fn, REPO)[:-3].replace(os.sep, '.')
+        for node in ast.walk(tree):
+            if isinstance(node, ast.FunctionDef):
+                # qualified name and loop ordinals (contracts refer to loops by ordinal, not by line number)
+                q = [node.name]; p = getattr(node, '_parent', None)
+                while p is not None and not isinstance(p, ast.Module):
+                    if isinstance(p, (ast.ClassDef, ast.FunctionDef)): q.append(p.name)
+                    p = getattr(p, '_parent', None)
+                node._qual = modname + '.' + '.'.join(reversed(q))
+                k = 0
+                todo = list(reversed(node.body))
+                while todo:
+                    st = todo.pop()
+                    if isinstance(st, (ast.FunctionDef, ast.ClassDef, ast.Lambda)): continue
+                    if isinstance(st, (ast.For, ast.While)):
+                        st._loopkey = (node._qual, k); k += 1
+                    todo.extend(reversed(list(ast.iter_child_nodes(st))))
         for node in ast.walk(tree):
             if isinstance(node, (ast.FunctionDef, ast.Lambda)):
                 idx.setdefault(node.lineno, []).append(node)
@@ -146,6 +163,7 @@ class Interp:
         self.taken = []          # (choice, alternatives)
         self.nq = 0
         self.contracts = {}      # function object -> handler(interp, args, kwargs) -> result | NotImplemented
+        self.loop_contracts = {} # (function qualname, loop ordinal) -> handler(interp, env): the loop body's contract
         self.used_contracts = set()
         self.evaluated = set()   # qualified names of repo functions evaluated from the AST
         self.step_limit = None
@@ -462,8 +480,12 @@ class Interp:
                 yield from self.exec_block(s.orelse, env)
         elif T is ast.For:
             it = self.iter(self.eval(s.iter, env))
+            lc = self.loop_contracts.get(getattr(s, '_loopkey', None)) if self.loop_contracts else None
             for x in it:
                 self.assign(s.target, x, env)
+                if lc is not None:
+                    # the loop body is replaced by its contract (proved by its own obligation)
+                    lc(self, env); self.used_contracts.add('loop body %s#%d' % s._loopkey); continue
                 try: yield from self.exec_block(s.body, env)
                 except Break: break
                 except Continue: continue
